@@ -15,11 +15,11 @@ vars == <<cfg, s, arr, hist>>
 view == <<cfg, s, arr>>
 
 L == <<2, 1>>
-DAtoms == {Pass, Fix(1), Fix(2), Fix(5), ToPull(1, 0), ToPull(2, 1), ToPull(3, 0), ToPush}
+DAtoms == {Pass, Fix(1), Fix(2), Fix(5), ToPull(1, 0), ToPull(2, 2), ToPull(3, 0), ToPush}
 DChains ==
   CASE ChainSet = "one"   -> {<<a>> : a \in DAtoms}
     [] ChainSet = "two"   -> {<<a, b>> : a \in DAtoms, b \in DAtoms}
-    [] ChainSet = "three" -> {<<a, b, c>> : a \in DAtoms \ {ToPull(3, 0)}, b \in DAtoms \ {Fix(5)}, c \in DAtoms \ {ToPull(2, 1)}}
+    [] ChainSet = "three" -> {<<a, b, c>> : a \in DAtoms \ {ToPull(3, 0)}, b \in DAtoms \ {Fix(5)}, c \in DAtoms \ {ToPull(2, 2)}}
     [] ChainSet = "upto2" -> {<<a>> : a \in DAtoms} \cup {<<a, b>> : a \in DAtoms, b \in DAtoms}
 Cfgs == {MkCfg(<<TimeC(<<1>>, off, FALSE, <<>>), TimeC(<<1>>, 0, FALSE, <<Lk(1, ch)>>)>>, <<1, 2>>, 0, "dag", "delay") :
            off \in {0, 2}, ch \in DChains}
